@@ -44,7 +44,7 @@ def bad(node, why: str):
 COQ_KEYWORDS = {"at", "as", "end", "in", "match", "return", "with", "fix", "let", "using", "then", "else", "if", "fun", "forall", "exists",
                 "Type", "Set", "Prop", "where", "struct", "for", "cofix", "IF", "by", "do", "is", "of", "mod", "self_"}
 EXNS = {"KeyError", "IndexError", "AssertionError", "TypeError", "ValueError", "JellyConformanceError", "JellyAssertionError",
-        "JellyNotImplementedError", "StopIteration", "NotImplementedError", "ZeroDivisionError", "BaseException", "AttributeError", "OutsideModel"}
+        "JellyNotImplementedError", "StopIteration", "NotImplementedError", "ZeroDivisionError", "BaseException", "AttributeError", "OutsideModel", "RuntimeError"}
 
 
 ENUM_TYPES: dict[str, dict[str, int]] = {}  # filled from the descriptor in rdf_pb2.py by translate_unit
@@ -111,6 +111,10 @@ def compat(t, want) -> bool:
     """t may be used where want is expected ('?' = element type not known yet, e.g. of [])."""
     if t == want or t == "?" or want == "?":
         return True
+    if isinstance(t, tuple) and isinstance(want, tuple) and {t[0], want[0]} == {"pair", "tuple"}:
+        a = list(t[1:]) if t[0] == "pair" else t[1]
+        b = list(want[1:]) if want[0] == "pair" else want[1]
+        return len(a) == len(b) == 2 and all(compat(x, y) for x, y in zip(a, b))
     if isinstance(t, tuple) and isinstance(want, tuple) and t[0] == want[0]:
         if t[0] == "tuple":
             return len(t[1]) == len(want[1]) and all(compat(a, b) for a, b in zip(t[1], want[1]))
@@ -258,6 +262,11 @@ def static_truth(test, env):
         if t in ("int", "str", "bool") or (isinstance(t, tuple) and t[0] in ("obj", "seq", "iter", "pb", "dict", "set", "tuple")):
             return isinstance(test.ops[0], ast.IsNot)
         return None
+    if isinstance(test, ast.Call) and isinstance(test.func, ast.Name) and test.func.id == "isinstance" and len(test.args) == 2 and not test.keywords \
+            and isinstance(test.args[0], ast.Name) and isinstance(test.args[1], ast.Name) and env.get(test.args[0].id) == ("obj", test.args[1].id):
+        return True  # the static type is that very class
+    if isinstance(test, ast.Call) and isinstance(test.func, ast.Name) and test.func.id == "iter" and len(test.args) == 1 and not test.keywords:
+        return True  # an iterator object is truthy (the TypeError for a non-iterable argument aside: the argument is one here)
     if isinstance(test, ast.BoolOp):
         vals = [static_truth(v, env) for v in test.values]
         if isinstance(test.op, ast.Or):
@@ -353,8 +362,11 @@ class Translator:
             bad(n, "class-level statement")
         for m in methods:
             a = m.args
-            if a.vararg or a.kwarg or a.posonlyargs or any(not (isinstance(d, ast.Constant) and d.value is None) for d in a.defaults + [d for d in a.kw_defaults if d is not None]):
+            if a.vararg or a.kwarg or a.posonlyargs or any(not ((isinstance(d, ast.Constant) and d.value is None) or (isinstance(d, ast.Name) and d.id in DYN_SINGLETONS))
+                                                          for d in a.defaults + [d for d in a.kw_defaults if d is not None]):
                 bad(m, "parameter kinds / defaults other than None")
+            if m.name == "__init__":
+                info.ctor_defaults = dict(zip([p_.arg for p_ in a.args[len(a.args) - len(a.defaults):]], a.defaults))
             params = [(p.arg, ann_type(p.annotation, self.classes)) for p in (a.args[1:] + a.kwonlyargs)]
             ret = ann_type(m.returns, self.classes) if m.name != "__init__" else ("obj", node.name)
             info.methods[m.name] = (params, ret)
@@ -416,8 +428,17 @@ class Translator:
                 emit_function(self, f"{info.name}_{m.name}", m.body, params, ret)
                 continue
             muts = [(p, t) for p, t in params if is_mutable(t)] if m.name in info.inout else []
+            if [ast.unparse(d_) for d_ in m.decorator_list] == ["property"]:
+                info.properties = getattr(info, "properties", set()) | {m.name}
+            info.method_outs = getattr(info, "method_outs", {})
+            info.method_outs[m.name] = [p_ for p_, _ in muts]
+            ret, muts, env, pre = generator_parts(ret, muts, env)  # a generator method: its yields as one more result
+            if pre:
+                info.inout.add(m.name)
+                info.generators = getattr(info, "generators", {})
+                info.generators[m.name] = env["ys__"][1]
             mode = MethodMode(self, info, ret, muts)
-            body = mode.stmts(m.body, env)
+            body = pre + mode.stmts(m.body, env)
             ps = " ".join(f"({mangle(p)} : {coq_type(t)})" for p, t in params)
             rt = f"outcome {coq_type(ret)} * {info.name}" + "".join(f" * {coq_type(t)}" for _, t in muts)
             self.out.append(f"Definition {info.name}_{m.name} {ps} (self : {info.name}) : {rt} :=\n{body}.")
@@ -677,6 +698,24 @@ class Mode:
         if isinstance(s, ast.Pass) and hasattr(s, "_raise_if"):
             ex_ = self.tr.gensym("e")
             return f"match {s._raise_if} with\n| Exn {ex_} => {self.on_exn(ex_)}\n| Val _ =>\n{self.stmts(rest, env)}\nend"
+        if isinstance(s, (ast.Assign, ast.AnnAssign)) and s.value is not None:
+            tg_ = s.targets[0] if isinstance(s, ast.Assign) and len(s.targets) == 1 else getattr(s, "target", None)
+            gv_ = s.value
+            while isinstance(gv_, ast.Call) and isinstance(gv_.func, ast.Name) and gv_.func.id == "cast" and len(gv_.args) == 2:
+                gv_ = gv_.args[1]
+            if isinstance(tg_, ast.Name) and isinstance(gv_, (ast.Call, ast.Attribute)) and self.gen_call(gv_, env) is not None:
+                # x = <generator call>: nothing runs yet in Python.  Here the callee runs now (it changes nothing but its own
+                # arguments' consumption); x is the list of what it yields, and the exception it ends with, if any, is kept aside:
+                # it is raised when a `for` has gone through the items; any other use of x refuses then (OutsideModel)
+                def k_bind(code, r_, ys_, yt_, env_):
+                    env2 = dict(env_)
+                    env2[tg_.id] = ("seq", yt_)
+                    env2["__pend__" + tg_.id] = r_
+                    return code + f"let {mangle(tg_.id)} := {ys_} in\n" + self.stmts(rest, env2)
+                return self.gen_call(gv_, env)(k_bind)
+            if isinstance(tg_, ast.Name) and ("__pend__" + tg_.id) in env:
+                env = dict(env)
+                del env["__pend__" + tg_.id]
         gc = None
         if isinstance(s, ast.Expr) and isinstance(s.value, (ast.Yield, ast.YieldFrom)) and isinstance(s.value.value, ast.Call):
             gc = self.gen_call(s.value.value, env)
@@ -701,7 +740,28 @@ class Mode:
             if "ys__" not in env or not compat(("seq", env[s.value.value.id][1]), env["ys__"]):
                 bad(s, "yield from")
             return f"let ys__ := (ys__ ++ {mangle(s.value.value.id)}) in\n{self.stmts(rest, env)}"
-        if isinstance(s, ast.For) and isinstance(s.iter, ast.Call) and self.gen_call(s.iter, env) is not None:
+        if isinstance(s, ast.Expr) and isinstance(s.value, ast.YieldFrom) and "ys__" in env:
+            yv = s.value.value
+            # yield from self.f / yield from self.d.items(): the items of the list / the (key, value) pairs of the dict, in order
+            if isinstance(yv, ast.Call) and isinstance(yv.func, ast.Attribute) and yv.func.attr == "items" and not yv.args and not yv.keywords \
+                    and isinstance(yv.func.value, ast.Attribute) and isinstance(yv.func.value.value, ast.Name) and yv.func.value.value.id == "self" \
+                    and isinstance(self.info.ftype(yv.func.value.attr), tuple) and self.info.ftype(yv.func.value.attr)[0] == "dict":
+                ft_ = self.info.ftype(yv.func.value.attr)
+                if not compat(("seq", ("pair", ft_[1], ft_[2])), env["ys__"]):
+                    bad(s, f"yield from the items of {ft_} in a generator of {env['ys__']}")
+                return f"let ys__ := (ys__ ++ {self.read_field(yv.func.value.attr)}) in\n{self.stmts(rest, env)}"
+            if isinstance(yv, ast.Attribute) and isinstance(yv.value, ast.Name) and yv.value.id == "self" \
+                    and isinstance(self.info.ftype(yv.attr), tuple) and self.info.ftype(yv.attr)[0] == "seq":
+                if not compat(self.info.ftype(yv.attr), env["ys__"]):
+                    bad(s, "yield from a list of another element type")
+                return f"let ys__ := (ys__ ++ {self.read_field(yv.attr)}) in\n{self.stmts(rest, env)}"
+        if isinstance(s, ast.For) and isinstance(s.target, ast.Tuple) and all(isinstance(x, ast.Name) for x in s.target.elts) and not s.orelse:
+            # for a, b in it: body  ==  for t in it: a, b = t; body
+            tmp = self.tr.gensym("item")
+            unpack = ast.Assign(targets=[s.target], value=ast.Name(id=tmp, ctx=ast.Load()))
+            loop = ast.For(target=ast.Name(id=tmp, ctx=ast.Store()), iter=s.iter, body=[unpack] + list(s.body), orelse=[])
+            return self.stmts([ast.fix_missing_locations(ast.copy_location(loop, s))] + rest, env)
+        if isinstance(s, ast.For) and isinstance(s.iter, (ast.Call, ast.Attribute, ast.Name)) and self.gen_call(s.iter, env) is not None:
             gcf = self.gen_call(s.iter, env)
 
             def k_for(code, r_, ys_, yt_, env_):
@@ -941,6 +1001,9 @@ class Mode:
                             at = None  # an annotation outside the subset on a local: the inferred type stands
                         if at is not None and compat(t, at):
                             t = at
+                        elif at is not None and isinstance(at, tuple) and at[0] == "opt" and (t == "none" or compat(t, at[1])):
+                            v = self.coerce(v, t, at, s)  # x: T | None = None / = <a T>: the declared optional type
+                            t = at
                     env2[tgt.id] = t
                     env2.pop("__alias__" + tgt.id, None)
                     ma_ = re.fullmatch(r'\(msg_sub "(\w+)"%string "(\w+)"%string (\w+)\)', v) if isinstance(t, tuple) and t[0] == "pb" else None
@@ -1055,6 +1118,21 @@ class Mode:
         """A call of a generator the unit translates (a module function, or a method of a local object): None, or a function
         that, given k(code, result variable, yields variable, yield type, env), produces the code."""
         tr = self.tr
+        # x.p for a generator property p of a local object; x itself for a local object whose class has a generator __iter__
+        if isinstance(e, ast.Attribute) and isinstance(e.value, ast.Name) and isinstance(env.get(e.value.id), tuple) and env[e.value.id][0] == "obj":
+            sub = tr.classes.get(env[e.value.id][1])
+            if sub is not None and e.attr in getattr(sub, "generators", {}) and e.attr in getattr(sub, "properties", ()):
+                return self.gen_call(ast.fix_missing_locations(ast.copy_location(ast.Call(func=e, args=[], keywords=[]), e)), env)
+            return None
+        if isinstance(e, ast.Name):
+            if ("__pend__" + e.id) in env:  # a generator bound earlier: its items, and the exception it ends with
+                return lambda k: k("", env["__pend__" + e.id], mangle(e.id), env[e.id][1], env)
+            if isinstance(env.get(e.id), tuple) and env[e.id][0] == "obj" and "__iter__" in getattr(tr.classes.get(env[e.id][1]), "generators", {}):
+                call = ast.Call(func=ast.Attribute(value=e, attr="__iter__", ctx=ast.Load()), args=[], keywords=[])
+                return self.gen_call(ast.fix_missing_locations(ast.copy_location(call, e)), env)
+            return None
+        if not isinstance(e, ast.Call):
+            return None
         f = e.func
         if isinstance(f, ast.Name) and f.id in tr.functions and isinstance(tr.functions[f.id][1], tuple) and tr.functions[f.id][1][0] == "gen" \
                 and f.id not in env:
@@ -1073,13 +1151,16 @@ class Mode:
             gens = getattr(sub, "generators", {}) if sub else {}
             if f.attr in gens:
                 params, _ = sub.methods[f.attr]
-                if any(is_mutable(t) for p, t in params if not (isinstance(t, tuple) and t[0] == "pb")):
-                    return None
+                outs_p = getattr(sub, "method_outs", {}).get(f.attr, [])
+                if any(not (isinstance(t, tuple) and t[0] in ("iter", "seq")) for p, t in params if p in outs_p):
+                    return None  # (sequences handed over to be consumed: what is left of them is not used again)
                 r_, ys_ = tr.gensym("r"), tr.gensym("ys")
                 nm = mangle(f.value.id)
 
                 def run(k):
-                    return self.args(e, params, env, lambda a: k(f"let '({r_}, {nm}, {ys_}) := {sub.name}_{f.attr} {' '.join(a)} {nm} in\n", r_, ys_, gens[f.attr], env))
+                    outs = [tr.gensym("o") for _ in outs_p]
+                    return self.args(e, params, env, lambda a: k(f"let '({', '.join([r_, nm] + outs + [ys_])}) := {sub.name}_{f.attr} {' '.join(a)} {nm} in\n",
+                                                                 r_, ys_, gens[f.attr], env))
                 return run
         return None
 
@@ -1137,9 +1218,24 @@ class Mode:
             saved = (self.ret_val, self.fall_off, self.on_exn, getattr(self, "loop_ctl", None))
             env_b = dict(env)
             env_b[s.target.id] = et
-            self.ret_val = lambda v, t: f"LReturn {self.coerce(v, t, self.ret, s)} {st_val}"
-            self.fall_off = lambda: f"{n} xs__ {st_val}"
-            self.on_exn = lambda e: f"LRaise {e} {st_val}"
+            declared = {mangle(v): t for v, t in list(muts) + list(carried)}
+            raw = {mangle(v): v for v, _ in list(muts) + list(carried)}
+
+            def pack(env_cur):
+                """The loop state from the variables as they are typed at this point: a carried variable declared optional that
+                holds a narrowed / freshly assigned non-optional value is wrapped again."""
+                vals = []
+                for nm_ in names:
+                    dt = declared.get(nm_)
+                    cur = env_cur.get(raw.get(nm_, nm_), dt) if dt is not None else None
+                    if dt is not None and cur != dt and isinstance(dt, tuple) and dt[0] == "opt":
+                        vals.append("None" if cur == "none" else f"(Some {nm_})" if compat(cur, dt[1]) else nm_)
+                    else:
+                        vals.append(nm_)
+                return "(" + ", ".join(vals) + ")" if len(vals) > 1 else vals[0]
+            self.ret_val = lambda v, t: f"LReturn {self.coerce(v, t, self.ret, s)} {pack(self.env_now)}"
+            self.fall_off = lambda: f"{n} xs__ {pack(getattr(self, '_fall_env', self.env_now))}"
+            self.on_exn = lambda e: f"LRaise {e} {pack(self.env_now)}"
             self.loop_ctl = {"break": f"LContinue {st_val}", "continue": f"{n} xs__ {st_val}"}
             try:
                 body = self.stmts(list(s.body), env_b)
@@ -1179,6 +1275,9 @@ class Mode:
 
     # ---- tests
     def cond(self, e, env, k) -> str:
+        st_ = static_truth(e, env)
+        if st_ is not None:
+            return k("true" if st_ else "false")
         if isinstance(e, ast.UnaryOp) and isinstance(e.op, ast.Not):
             return self.cond(e.operand, env, lambda c: k(f"(negb {c})"))
         if isinstance(e, ast.BoolOp) and not all(is_pure(v) for v in e.values[1:]):
@@ -1279,17 +1378,24 @@ class Mode:
         if isinstance(e, ast.Attribute) and isinstance(e.value, ast.Name) and env.get(e.value.id) == "any" and DYN:
             import dyn
             cs = dyn.classes_with_field(e.attr)
-            if len(cs) != 1:
-                bad(e, f"attribute {e.attr} of a dynamic value: {len(cs)} classes have it")
-            fs = DYN[cs[0]]
-            pats = " ".join((f"f__{n}" if n == e.attr else "_") for n, _, _ in fs)
-            ft = next(t for n, t, _ in fs if n == e.attr)
-            return (f"match {mangle(e.value.id)} with\n| O_{cs[0]} {pats} =>\n{k(f'f__{e.attr}', ft)}\n"
-                    f"| _ => {self.on_exn('AttributeError')}\nend")
+            if not cs:
+                bad(e, f"attribute {e.attr} of a dynamic value: no class has it")
+            fts = {next(t for n, t, _ in DYN[c] if n == e.attr) for c in cs}
+            if len(fts) != 1:
+                bad(e, f"attribute {e.attr} of a dynamic value: the classes that have it give it different types")
+            ft = fts.pop()
+            arms = ""
+            fail_ = self.on_exn('AttributeError')  # (with the variables as they are now: what follows may assign to them)
+            for c in cs:  # one alternative per class that has the attribute (what follows is repeated in each)
+                pats = " ".join((f"f__{n}" if n == e.attr else "_") for n, _, _ in DYN[c])
+                arms += f"| O_{c} {pats} =>\n{k(f'f__{e.attr}', ft)}\n"
+            return f"match {mangle(e.value.id)} with\n{arms}| _ => {fail_}\nend"
         if isinstance(e, ast.Name):
             if e.id in env:
                 if env[e.id] == "errmsg":
                     bad(e, "message string used as a value")
+                if ("__pend__" + e.id) in env:  # a generator used other than by a `for`: refused if it ends with an exception
+                    return f"match {env['__pend__' + e.id]} with\n| Exn _ => {self.on_exn('OutsideModel')}\n| Val _ =>\n{k(mangle(e.id), env[e.id])}\nend"
                 return k(mangle(e.id), env[e.id])
             if e.id in tr.consts:
                 return k(f"({tr.consts[e.id]})", "int")
@@ -1308,6 +1414,15 @@ class Mode:
         if isinstance(e, ast.Attribute) and isinstance(e.value, ast.Name) and isinstance(env.get(e.value.id), tuple) and env[e.value.id][0] == "pb":
             v, t = self.msg_read(mangle(e.value.id), env[e.value.id][1], e.attr, e)
             return k(v, t)
+        if isinstance(e, ast.Call) and isinstance(e.func, ast.Name) and e.func.id == "cast" and len(e.args) == 2 and not e.keywords and "cast" not in env:
+            return self.expr(e.args[1], env, k)  # typing.cast: the value itself
+        if isinstance(e, ast.Attribute) and isinstance(e.value, ast.Name) and isinstance(env.get(e.value.id), tuple) and env[e.value.id][0] == "obj" \
+                and e.attr in getattr(tr.classes.get(env[e.value.id][1]), "properties", ()) \
+                and e.attr in getattr(tr.classes.get(env[e.value.id][1]), "generators", {}):
+            # x.p for a generator property, as a value: the generator, i.e. (in this model) the list of what it yields
+            gc_ = self.gen_call(e, env)
+            ex_ = tr.gensym("e")
+            return gc_(lambda code, r_, ys_, yt_, env_: code + f"match {r_} with\n| Exn _ => {self.on_exn('OutsideModel')}\n| Val _ =>\n{k(ys_, ('seq', yt_))}\nend")
         if isinstance(e, ast.Attribute) and isinstance(e.value, ast.Name) and isinstance(env.get(e.value.id), tuple) and env[e.value.id][0] == "obj" \
                 and e.attr in getattr(tr.classes.get(env[e.value.id][1]), "properties", ()):
             # x.p for a property p of a translated class: the call of its getter
@@ -1467,6 +1582,10 @@ class Mode:
                     bad(e, f"subscript of {ot} by {it}")
                 return self.expr(e.slice, env, k_i)
             return self.expr(e.value, env, k_obj)
+        if isinstance(e, ast.Call) and self.gen_call(e, env) is not None:
+            # a generator call as a value: (in this model) the list of what it yields; when it ends with an exception, Python
+            # raises it wherever the consumer has got to by then: outside the model
+            return self.gen_call(e, env)(lambda code, r_, ys_, yt_, env_: code + f"match {r_} with\n| Exn _ => {self.on_exn('OutsideModel')}\n| Val _ =>\n{k(ys_, ('seq', yt_))}\nend")
         if isinstance(e, ast.Call):
             return self.call(e, env, k)
         bad(e, "expression")
@@ -1551,6 +1670,13 @@ class Mode:
                             items = "; ".join((x_ if ft_ == "any" else f"O_str {x_}") for x_, (_, ft_, _) in zip(xs_, fs_))
                             alts += f"| O_{c_} {' '.join(xs_)} =>\n{go(rest[1:], acc + ['[' + items + ']'])}\n"
                     return f"match {v} with\n{alts}| O_str _ => {self.on_exn('OutsideModel')}\n| _ => {self.on_exn('TypeError')}\nend"
+                if DYN and isinstance(t, tuple) and t[0] == "obj" and "__iter__" in getattr(self.tr.classes.get(t[1]), "generators", {}) \
+                        and isinstance(pt, tuple) and pt[0] in ("iter", "seq") and isinstance(pt[1], tuple) and pt[1][0] in ("iter", "seq") and pt[1][1] == "any":
+                    # an object iterated over, its items iterated over in turn (statements: NamedTuples).  An item that is not
+                    # iterable would raise TypeError when its turn comes: outside the model (refused up front)
+                    ri_, ys_i, ll_, ei_ = (self.tr.gensym(x_) for x_ in ("r", "ys", "ll", "e"))
+                    return (f"let '({ri_}, _, {ys_i}) := {t[1]}___iter__ {v} in\nmatch {ri_} with\n| Exn {ei_} => {self.on_exn(ei_)}\n| Val _ =>\n"
+                            f"match obj_items_all {ys_i} with\n| None => {self.on_exn('OutsideModel')}\n| Some {ll_} =>\n{go(rest[1:], acc + [ll_])}\nend\nend")
                 if DYN and t == "any" and pt == "str":
                     # a dynamic value where a str is expected: Python checks nothing; the translation covers the case
                     # that it is a str and marks the other as outside the model
@@ -1753,6 +1879,12 @@ class Mode:
             filled = ast.Call(func=f, args=[], keywords=list(e.keywords) + [ast.keyword(arg=p, value=cls.defaults[p]) for p, _ in params if p not in given])
             return self.args(filled, params, env, lambda a: (
                 f"match {cls.name}___init__ {' '.join(a)} with\n| Exn {ex} => {self.on_exn(ex)}\n| Val {o} =>\n{k(o, ('obj', cls.name))}\nend"))
+        if isinstance(f, ast.Name) and f.id in tr.classes and getattr(tr.classes[f.id], "ctor_defaults", None):
+            params, _ = tr.classes[f.id].methods["__init__"]
+            given = {p_ for (p_, _), _a in zip(params, e.args)} | {kw.arg for kw in e.keywords}
+            e = ast.Call(func=f, args=list(e.args), keywords=list(e.keywords) + [ast.keyword(arg=p_, value=d_) for p_, d_ in tr.classes[f.id].ctor_defaults.items()
+                                                                               if p_ not in given])
+            ast.fix_missing_locations(e)
         if isinstance(f, ast.Name) and f.id in tr.classes:
             params, _ = tr.classes[f.id].methods["__init__"]
             return self.args(e, params, env, lambda a: (
@@ -1760,6 +1892,8 @@ class Mode:
         if (isinstance(f, ast.Subscript) and isinstance(f.value, ast.Name) and f.value.id == "OrderedDict" and not e.args and not e.keywords
                 and isinstance(f.slice, ast.Tuple) and [getattr(x, "id", None) for x in f.slice.elts] == ["str", "int"]):
             return k("(@od_empty K)", "od")
+        if isinstance(f, ast.Name) and f.id == "deque" and not e.args and not e.keywords:
+            return k("[]", ("seq", "?"))  # an unbounded deque, used as a list (append, iteration, indexing)
         if isinstance(f, ast.Name) and f.id == "deque" and len(e.args) == 1 and [kw.arg for kw in e.keywords] == ["maxlen"]:
             return self.expr(e.args[0], env, lambda it, itt: self.expr(e.keywords[0].value, env, lambda n, nt: (
                 f"match deque_make {it} {n} with\n| Exn {ex} => {self.on_exn(ex)}\n| Val {x} =>\n{k(x, itt)}\nend"
@@ -1931,10 +2065,44 @@ class Mode:
             if f.attr in self.info.inout:
                 return self.call_static(f"{self.info.name}_{f.attr}", e, params, ret, env, k, with_self=True)
             return self.args(e, params, env, lambda a: self.call_self(f.attr, a, ret, r, ex, x, k))
+        # x.m(..) for a local `C | None`: AttributeError when it is None
+        if isinstance(f.value, ast.Name) and isinstance(env.get(f.value.id), tuple) and env[f.value.id][0] == "opt" \
+                and isinstance(env[f.value.id][1], tuple) and env[f.value.id][1][0] == "obj":
+            sub = tr.classes[env[f.value.id][1][1]]
+            if f.attr not in sub.methods or f.attr == "__init__" or f.attr in sub.inout or f.attr in sub.static:
+                bad(e, "method of an optional local object")
+            params, ret = sub.methods[f.attr]
+            nm = mangle(f.value.id)
+            return self.args(e, params, env, lambda a: (
+                f"match {nm} with\n| None => {self.on_exn('AttributeError')}\n| Some {o} =>\n"
+                f"let '({r}, {o}) := {sub.name}_{f.attr} {' '.join(a)} {o} in\nlet {nm} := Some {o} in\n"
+                f"match {r} with\n| Exn {ex} => {self.on_exn(ex)}\n| Val {x} =>\n{k('tt' if ret == 'none' else x, ret)}\nend\nend"))
+        # <local object>.f.m(..): a method of an object the local object owns
+        if isinstance(f.value, ast.Attribute) and isinstance(f.value.value, ast.Name) and f.value.value.id != "self" \
+                and isinstance(env.get(f.value.value.id), tuple) and env[f.value.value.id][0] == "obj":
+            owner = tr.classes[env[f.value.value.id][1]]
+            fld = f.value.attr
+            ft = owner.ftype(fld)
+            if isinstance(ft, tuple) and ft[0] == "obj":
+                sub = tr.classes[ft[1]]
+                if f.attr not in sub.methods or f.attr == "__init__" or f.attr in sub.inout or f.attr in sub.static:
+                    bad(e, "method of an owned object of a local object")
+                params, ret = sub.methods[f.attr]
+                nm = mangle(f.value.value.id)
+                return self.args(e, params, env, lambda a: (
+                    f"let '({r}, {o}) := {sub.name}_{f.attr} {' '.join(a)} ({owner.name}_{fld} {nm}) in\n"
+                    f"let {nm} := set_{owner.name}_{fld} {o} {nm} in\n"
+                    f"match {r} with\n| Exn {ex} => {self.on_exn(ex)}\n| Val {x} =>\n{k('tt' if ret == 'none' else x, ret)}\nend"))
         # self.f.m(..): a built-in container or an owned object
         if isinstance(f.value, ast.Attribute) and isinstance(f.value.value, ast.Name) and f.value.value.id == "self":
             fld = f.value.attr
             ft = self.info.ftype(fld)
+            if isinstance(ft, tuple) and ft[0] == "dict" and f.attr == "update" and len(e.args) == 1 and not e.keywords and isinstance(e.args[0], ast.Dict) \
+                    and len(e.args[0].keys) == 1 and e.args[0].keys[0] is not None:
+                # d.update({k: v}): d[k] = v
+                return self.expr(e.args[0].keys[0], env, lambda kv, kt: self.expr(e.args[0].values[0], env, lambda vv, vt: (
+                    self.write_field(fld, f"(ad_set str_eqb {kv} {self.coerce(vv, vt, ft[2], e)} {self.read_field(fld)})", ft, lambda: k("tt", "none"))
+                    if compat(kt, ft[1]) else bad(e, "dict.update key type"))))
             if ft == "od" and f.attr == "move_to_end" and len(e.args) == 1 and not e.keywords:
                 return self.expr(e.args[0], env, lambda kv, kt: (
                     f"match od_move_to_end str_eqb {kv} {self.read_field(fld)} with\n| Exn {ex} => {self.on_exn(ex)}\n"
@@ -1982,6 +2150,8 @@ class MethodMode(Mode):
         return self.wrap(f"Val {self.coerce(v, t, self.ret, None)}")
 
     def ret_exn(self, e):
+        if any(p == "ys__" for p, _ in self.muts):  # the body of a generator (PEP 479)
+            return self.wrap(f"Exn (gen_exn {e})")
         return self.wrap(f"Exn {e}")
 
     def fall_off(self):
@@ -2029,6 +2199,8 @@ class FuncMode(Mode):
         return self.wrap(f"Val {self.coerce(v, t, self.ret, None)}")
 
     def ret_exn(self, e):
+        if any(p == "ys__" for p, _ in self.muts):  # the body of a generator (PEP 479)
+            return self.wrap(f"Exn (gen_exn {e})")
         return self.wrap(f"Exn {e}")
 
     def fall_off(self):
@@ -2143,7 +2315,8 @@ UNITS = {
     # subclasses as one family; the terms of generic_sink.py as the dynamic values
     "generic_sink": {"src": "pyjelly/integrations/generic/generic_sink.py", "ctx": True, "uses": [], "gen": "GenericSinkGen",
                      "items": [{"dyn": "obj", "src": "pyjelly/integrations/generic/generic_sink.py",
-                                "classes": ["IRI", "BlankNode", "Literal", "Triple", "Quad", "Prefix"], "singletons": {"DefaultGraph": "_DefaultGraph"}}]},
+                                "classes": ["IRI", "BlankNode", "Literal", "Triple", "Quad", "Prefix"], "singletons": {"DefaultGraph": "_DefaultGraph"}},
+                               ("GenericStatementSink", ["__init__", "add", "bind", "__iter__", "namespaces", "identifier", "store"])]},
     "generic_parse": {"src": "pyjelly/integrations/generic/parse.py", "ctx": True, "uses": ["lookup_dec", "options", "decode", "generic_sink"],
                       "gen": "GenericParseGen",
                       "defines": ["Adapter", "Adapter_options", "Adapter_iri", "Adapter_default_graph", "Adapter_bnode", "Adapter_literal", "Adapter_triple",
@@ -2172,14 +2345,23 @@ UNITS = {
                                                                                   "logical_type_strict": "bool"},
                                                "returns": "Generator[Any | None]"}}},
     # the generic integration's term encoder: the two methods TermEncoder leaves to its subclasses, over the generic terms
-    "generic_serialize": {"src": "pyjelly/integrations/generic/serialize.py", "ctx": True, "uses": ["lookup_enc", "options", "encode", "generic_sink"],
-                          "gen": "GenericSerializeGen",
+    "generic_serialize": {"src": "pyjelly/integrations/generic/serialize.py", "ctx": True,
+                          "uses": ["lookup_enc", "options", "encode", "flows", "streams", "generic_sink"],
+                          # the drivers: a GenericStatementSink as data (the generator alternative of the annotation is not translated)
+                          "functions": {
+                              "namespace_declarations": {},
+                              "triples_stream_frames": {"param_types": {"data": "GenericStatementSink", "stream": "Stream"}},
+                              "quads_stream_frames": {"param_types": {"data": "GenericStatementSink", "stream": "Stream"}},
+                              "graphs_stream_frames": {"param_types": {"data": "GenericStatementSink", "stream": "Stream"}},
+                              "split_to_graphs": {"param_types": {"data": "list[Any]"}}},
+                          "gen": "GenericSerializeGen", "explicit_T": True,
                           "items": [
                               {"dyn": "obj", "imported": True, "src": "pyjelly/integrations/generic/generic_sink.py",
                                "classes": ["IRI", "BlankNode", "Literal", "Triple", "Quad", "Prefix"], "singletons": {"DefaultGraph": "_DefaultGraph"}},
                               {"extend": "TermEncoder", "subclass": "GenericSinkTermEncoder", "base_src": "pyjelly/serialize/encode.py",
                                "methods": ["encode_spo", "encode_graph"], "inline": ["get_iri_field", "get_literal_field", "get_triple_field"],
-                               "recursive": {"method": "encode_spo", "through": ["TermEncoder_encode_quoted_triple"], "fuel": "term"}}]},
+                               "recursive": {"method": "encode_spo", "through": ["TermEncoder_encode_quoted_triple"], "fuel": "term"}},
+                              "namespace_declarations", "triples_stream_frames", "quads_stream_frames", "split_to_graphs", "graphs_stream_frames"]},
     "encode": {"src": "pyjelly/serialize/encode.py", "ctx": True, "uses": ["lookup_enc", "options"], "gen": "EncodeGen",
                "items": ["split_iri", ("TermEncoder", ["__init__", "start_statement", "_entry_index", "encode_iri_indices", "encode_iri",
                                                        "encode_default_graph", "encode_literal", "set_bnode_field", "encode_quoted_triple"], ["encode_spo", "encode_graph"]),
@@ -2335,6 +2517,9 @@ def run_unit(repo: Path, unit: str) -> tuple["Translator", set[str], list[str]]:
             if set(vs) & defined_virtuals and any(v in dinfo.get("implicit_types", ()) for v in vs):
                 # the type parameters too are defined here (T := obj, the opaque class := this unit's record): given explicitly
                 line = f"Notation {n} := (@{UNITS[dep]['gen']}.{n} {' '.join('obj' if v == 'T' and dyn_unit else v for v in vs)})."
+            elif "T" in vs and dyn_unit and "T" in dinfo.get("implicit_types", ()) and not any(v != "T" and v in dinfo.get("implicit_types", ()) for v in vs) \
+                    and not set(vs) & defined_virtuals and u.get("explicit_T"):
+                line = f"Notation {n} := (@{UNITS[dep]['gen']}.{n} {' '.join('obj' if v == 'T' else v for v in vs)})."  # T := obj, said outright
             tr.import_info[n] = (UNITS[dep]["gen"], vs)
             if set(vs) & defined_virtuals:
                 tr.deferred_abbrev.append(line)  # after the definitions of the parameters it takes (extend.py)
@@ -2442,7 +2627,21 @@ def run_unit(repo: Path, unit: str) -> tuple["Translator", set[str], list[str]]:
             rest.remove(n)
             ordered.append(n)
         chosen = ordered
+    raw_items = u["items"] or []
+    first_ext = next((i for i, x in enumerate(raw_items) if isinstance(x, dict) and "extend" in x), len(raw_items))
+    late = {x if isinstance(x, str) else x[0] for x in raw_items[first_ext:] if isinstance(x, (str, tuple))}  # listed after the extension: use its methods
+    chosen = [n for n in chosen if item_name(n) not in late] + [n for n in chosen if item_name(n) in late]
+    ext_done = False
+
+    def do_extensions():
+        import extend
+        for spec in ext_specs:
+            tr.out.append(f"(* ---- class {spec['subclass']}({spec['extend']}) ({rel}): the methods that {spec['extend']} leaves to its subclasses *)")
+            extend.add_extension(tr, repo, mod, spec, rel)
     for n in chosen:
+        if item_name(n) in late and not ext_done:
+            do_extensions()
+            ext_done = True
         if isinstance(n, ast.ClassDef) and n.name in opaque_specs:
             OPAQUE.add(n.name)
             tr.out.append(f"(* ---- class {n.name} ({rel}): abstract here, the integrations' adapters are its subclasses *)")
@@ -2492,10 +2691,8 @@ def run_unit(repo: Path, unit: str) -> tuple["Translator", set[str], list[str]]:
             tr.int_sets[item_name(n)] = list(n.value.elts)
         else:
             bad(n, "module-level item")
-    for spec in ext_specs:
-        import extend
-        tr.out.append(f"(* ---- class {spec['subclass']}({spec['extend']}) ({rel}): the methods that {spec['extend']} leaves to its subclasses *)")
-        extend.add_extension(tr, repo, mod, spec, rel)
+    if not ext_done:
+        do_extensions()
     any_ctx = bool(u["ctx"]) and not getattr(tr, "dyn", False) and (
         tr.uses_any or any(re.search(r"\bT\b", o) for o in tr.out) or any(v == "T" for v, _ in tr.import_decls))
     deps, implicit, decls = ctx_analysis(tr.out, imported, any_ctx, tr.import_decls, dyn=getattr(tr, "dyn", False)) if u["ctx"] else ({}, [], [])
